@@ -171,7 +171,13 @@ func (iter *DBIterator) Seek(key []byte) {
 	// Convert user key to internal key for seeking.
 	// We use MaxUint64 as version to seek to the latest version of the key.
 	// We default to CFDefault as DBIterator currently doesn't support specifying CF.
-	internalKey := kv.InternalKey(kv.CFDefault, key, nonTxnMaxVersion)
+	seekVersion := uint64(nonTxnMaxVersion)
+	if !iter.isAsc {
+		// Reverse seek lands on the last internal key <= the target: version 0 is the
+		// largest internal key of the user key, so none of its versions is skipped.
+		seekVersion = 0
+	}
+	internalKey := kv.InternalKey(kv.CFDefault, key, seekVersion)
 	iter.iitr.Seek(internalKey)
 	iter.populate()
 }
